@@ -634,12 +634,18 @@ class Interp:
             st.oblige(name, r, "invariant")
 
     def assume_inv(self, st, spec, view):
-        r = spec.invariant(view)
-        if inspect.isgenerator(r):
-            for _label, f in r:
-                st.assume(f if isinstance(f, (SBool, bool)) else mk_bool(V._zb(f)))
-        else:
-            st.assume(r if isinstance(r, (SBool, bool)) else mk_bool(V._zb(r)))
+        # ghost flag: the invariant is being evaluated as an assumption (a contract helper may then produce a
+        # genuine quantifier where, as a goal, it would produce a Skolem instance)
+        st.ghost["inv_assuming"] = st.ghost.get("inv_assuming", 0) + 1
+        try:
+            r = spec.invariant(view)
+            if inspect.isgenerator(r):
+                for _label, f in r:
+                    st.assume(f if isinstance(f, (SBool, bool)) else mk_bool(V._zb(f)))
+            else:
+                st.assume(r if isinstance(r, (SBool, bool)) else mk_bool(V._zb(r)))
+        finally:
+            st.ghost["inv_assuming"] -= 1
 
     def loop_targets(self, s):
         """Names / self-attributes / mutated containers assigned anywhere in the loop."""
